@@ -46,6 +46,20 @@ ATTR_CATALOGUE: list[dict[str, Any]] = [
     {"e": "[]", "d": "{}"},
     {"expr": "[__import__('os')]"},
 ]
+ATTR_CATALOGUE += [
+    {"classes": "['land', 'ocean']"},
+    {"index": "[Hansen's index]"},
+    {"grid": "'grid_x'"},
+    {"q": '"quoted"'},
+    {"mixed": "{'a': \"b\"}"},
+    {"nested": [[1, 2], [3, 4]]},
+    {"tup": ("a", "b")},
+    {"none_like": "none", "true_like": "true"},
+    {"multi": "True", "other": "[0, 100]", "third": "None"},
+]
+# indices of the entries whose string values look like Python literals / sanitised values
+HOSTILE_ATTRS = [i for i, a in enumerate(ATTR_CATALOGUE)
+                 if any(isinstance(v, str) and (v[:1] in "[{'\"" or v in ("None", "True", "False", "")) for v in a.values())]
 # entries whose *values* the netCDF layer itself would refuse are not listed (None, dict): xarray
 # raises on them before xeofs' codec is involved; tuples/bools are what xeofs says it handles.
 
